@@ -45,6 +45,7 @@ func RunW1(p *Profile, plan, sched *simrt.Source, trace bool) *RunOut {
 	ver := 1
 	evolveOps := map[int]*MgmtOp{}  // before call i
 	states := make([]SetModel, ncalls) // rule set each call runs against
+	var callState []SetModel
 	for i := 0; i < ncalls; i++ {
 		if evolve && i > 0 && g.Pct(35) {
 			op := g.GenPoolMgmtOp(universe, state, &ver, []int{OpIncr, OpIncr, OpIncr, OpRemove}, 0)
@@ -54,8 +55,40 @@ func RunW1(p *Profile, plan, sched *simrt.Source, trace bool) *RunOut {
 			}
 		}
 		states[i] = state
-		sc.Calls = append(sc.Calls, g.GenCall(p, withVersion(universe, state), i))
+		c := g.GenCall(p, withVersion(universe, state), len(sc.Calls))
+		sc.Calls = append(sc.Calls, c)
+		callState = append(callState, state)
+		if p.TwinUntagged {
+			if um, ok := untaggedTwin[c.Method]; ok {
+				anyStop := false
+				for _, pl := range c.Plan {
+					if pl.Stop || pl.GateAt >= 0 || pl.GateChild >= 0 {
+						anyStop = true
+					}
+				}
+				if !anyStop {
+					t := &Call{Idx: len(sc.Calls), Method: um, B: c.B, Names: c.Names, Plan: c.Plan, TwinOf: c.Idx}
+					sc.Calls = append(sc.Calls, t)
+					callState = append(callState, state)
+				}
+			}
+		}
 	}
+	states = callState
+	evolveByCall := map[int]*MgmtOp{}
+	{
+		k := 0
+		for ci, c := range sc.Calls {
+			if c.TwinOf >= 0 {
+				continue
+			}
+			if op := evolveOps[k]; op != nil {
+				evolveByCall[ci] = op
+			}
+			k++
+		}
+	}
+	evolveOps = evolveByCall
 	for _, c := range sc.Calls {
 		for id, pl := range c.Plan {
 			rd := sc.Rule(id)
@@ -134,6 +167,21 @@ func RunW1(p *Profile, plan, sched *simrt.Source, trace bool) *RunOut {
 			}
 		}
 	}
+	// C14: with the tag never set, the stop-tag variant behaves exactly like the variant without a tag
+	for _, t := range sc.Calls {
+		if t.TwinOf < 0 {
+			continue
+		}
+		a, b := views[t.TwinOf], views[t.Idx]
+		if a.CR < 0 || b.CR < 0 {
+			continue
+		}
+		sa, sb := execTrace(a), execTrace(b)
+		if sa != sb || a.Flags != b.Flags {
+			all = append(all, Violation{Clause: "differs-from-untagged-variant", Method: MethodNames[a.C.Method], Call: a.C.Idx,
+				Msg: fmt.Sprintf("%s with the stop tag never set ran [%s] (flags %d); the same call through %s ran [%s] (flags %d)", a.C, sa, a.Flags, MethodNames[t.Method], sb, b.Flags)})
+		}
+	}
 	fl, fm := inFlightCalls(views)
 	for _, v := range runLevel(run, fl) {
 		v.Method = fm
@@ -149,4 +197,20 @@ func RunW1(p *Profile, plan, sched *simrt.Source, trace bool) *RunOut {
 	}
 	o.NonTrivial = run.St.Decisions > 0 || fired > 0 || ncalls >= 2
 	return o
+}
+
+// untaggedTwin maps the sequential stop-tag variants to their counterparts without a tag.
+var untaggedTwin = map[int]int{MExecuteStopTag: MExecute, MSelectedCtlStop: MSelectedCtl, MSelectedCtlStopGiven: MSelectedCtlGiven}
+
+// execTrace is the order in which a call started and ended its rules.
+func execTrace(v *CallView) string {
+	s := ""
+	for _, x := range v.Execs {
+		s += fmt.Sprintf("%d", x.Rule)
+		if x.Fired {
+			s += "!"
+		}
+		s += " "
+	}
+	return s
 }
